@@ -281,6 +281,163 @@ theorem C15_remove_redundant_exact {σ : Type} (lp : LPOracle σ α) (hopt : Opt
   obtain ⟨j, hj, rfl⟩ := List.mem_iff_getElem.mp hrb
   exact hx j hj (by simp)
 
+/-- an `optimal` answer is a point of the set it was asked about -/
+def WitnessIn {σ : Type} (lp : LPOracle σ α) : Prop :=
+  ∀ s q c x, (lp s q c).1 = LPAnswer.optimal x → Poly.Mem q x
+
+/-- an `unbounded` answer is right: the objective takes arbitrarily small values on the set -/
+def UnboundedSound {σ : Type} (lp : LPOracle σ α) : Prop :=
+  ∀ s q c, (lp s q c).1 = LPAnswer.unbounded → ∀ M : α, ∃ x, Poly.Mem q x ∧ dot c x < M
+
+theorem mem_removeRows_mono (p : Aff α) (a b : List Nat) (hab : ∀ i ∈ a, i ∈ b) (x : List α)
+    (h : Poly.Mem (p.removeRows a) x) : Poly.Mem (p.removeRows b) x := by
+  rw [mem_removeRows] at h ⊢
+  intro j hj hjb
+  exact h j hj (fun hja => hjb (hab j hja))
+
+theorem mem_removeRows_of_mem (p : Aff α) (a : List Nat) (x : List α) (h : Poly.Mem p x) :
+    Poly.Mem (p.removeRows a) x := by
+  rw [mem_removeRows]
+  intro j hj _
+  exact h _ (List.getElem_mem hj)
+
+/-- dropping rows never loses a point, for every threshold and every solver that is right about `infeasible` -/
+theorem removeRedundantLoop_superset {σ : Type} (eps : α) (lp : LPOracle σ α) (hinf : InfeasibleSound lp)
+    (p : Aff α) (idxs red : List Nat) (s : σ) (r : Aff α)
+    (h : (removeRedundantLoop eps lp p idxs red s).1 = .ok r) (x : List α) (hm : Poly.Mem p x) : Poly.Mem r x := by
+  induction idxs generalizing red s with
+  | nil =>
+    simp only [removeRedundantLoop, RedResult.ok.injEq] at h
+    subst h
+    exact mem_removeRows_of_mem p red x hm
+  | cons i rest ih =>
+    simp only [removeRedundantLoop] at h
+    rcases hlp : lp s (p.removeRows (i :: red)) (vneg (p.mat.getD i [])) with ⟨a, s'⟩
+    rw [hlp] at h
+    cases a with
+    | error => simp at h
+    | unbounded => exact ih red s' h
+    | infeasible =>
+      exact absurd ⟨x, mem_removeRows_of_mem p (i :: red) x hm⟩ (hinf s _ _ (by rw [hlp]))
+    | optimal xs =>
+      simp only at h
+      split at h
+      · exact ih (i :: red) s' h
+      · exact ih red s' h
+
+/-- what the loop returns: the canonical empty polytope, or `p` without an index set `red' ⊇ red` such that every
+    index of `idxs` that stays is needed by a margin of `eps`: some point of the other remaining rows violates it by
+    more than `eps` -/
+theorem removeRedundantLoop_kept {σ : Type} (eps : α) (lp : LPOracle σ α) (hwit : WitnessIn lp)
+    (hunb : UnboundedSound lp) (p : Aff α) (idxs red : List Nat) (s : σ) (r : Aff α)
+    (h : (removeRedundantLoop eps lp p idxs red s).1 = .ok r) :
+    r = Poly.empty p.indim ∨ ∃ red', r = p.removeRows red' ∧ (∀ j ∈ red, j ∈ red') ∧ (∀ j ∈ red', j ∈ red ∨ j ∈ idxs) ∧
+      ∀ i ∈ idxs, i ∉ red' →
+        ∃ x, Poly.Mem (p.removeRows (i :: red')) x ∧ p.bias.getD i 0 + eps < dot (p.mat.getD i []) x := by
+  induction idxs generalizing red s with
+  | nil =>
+    simp only [removeRedundantLoop, RedResult.ok.injEq] at h
+    exact Or.inr ⟨red, h.symm, fun j hj => hj, fun j hj => Or.inl hj, by simp⟩
+  | cons i rest ih =>
+    simp only [removeRedundantLoop] at h
+    rcases hlp : lp s (p.removeRows (i :: red)) (vneg (p.mat.getD i [])) with ⟨a, s'⟩
+    rw [hlp] at h
+    cases a with
+    | error => simp at h
+    | infeasible =>
+      simp only [RedResult.ok.injEq] at h
+      exact Or.inl h.symm
+    | unbounded =>
+      rcases ih red s' h with he | ⟨red', hr, hsub, hsup, hk⟩
+      · exact Or.inl he
+      · refine Or.inr ⟨red', hr, hsub, fun j hj => (hsup j hj).imp id (List.mem_cons_of_mem i), ?_⟩
+        intro j hj hjr
+        rcases List.mem_cons.1 hj with rfl | hj'
+        · obtain ⟨x, hx, hlt⟩ := hunb s _ _ (by rw [hlp]) (-(p.bias.getD j 0 + eps))
+          rw [dot_vneg_left] at hlt
+          refine ⟨x, mem_removeRows_mono p (j :: red) (j :: red') ?_ x hx, by linarith⟩
+          intro k hk'
+          rcases List.mem_cons.1 hk' with rfl | hk''
+          · exact List.mem_cons_self
+          · exact List.mem_cons_of_mem _ (hsub k hk'')
+        · exact hk j hj' hjr
+    | optimal xs =>
+      simp only at h
+      split at h
+      · rcases ih (i :: red) s' h with he | ⟨red', hr, hsub, hsup, hk⟩
+        · exact Or.inl he
+        · refine Or.inr ⟨red', hr, fun j hj => hsub j (List.mem_cons_of_mem i hj), ?_, ?_⟩
+          · intro j hj
+            rcases hsup j hj with h1 | h1
+            · rcases List.mem_cons.1 h1 with rfl | h2
+              · exact Or.inr List.mem_cons_self
+              · exact Or.inl h2
+            · exact Or.inr (List.mem_cons_of_mem i h1)
+          · intro j hj hjr
+            rcases List.mem_cons.1 hj with rfl | hj'
+            · exact absurd (hsub j List.mem_cons_self) hjr
+            · exact hk j hj' hjr
+      · rename_i hnle
+        rcases ih red s' h with he | ⟨red', hr, hsub, hsup, hk⟩
+        · exact Or.inl he
+        · refine Or.inr ⟨red', hr, hsub, fun j hj => (hsup j hj).imp id (List.mem_cons_of_mem i), ?_⟩
+          intro j hj hjr
+          rcases List.mem_cons.1 hj with rfl | hj'
+          · have hx := hwit s _ _ xs (by rw [hlp])
+            refine ⟨xs, mem_removeRows_mono p (j :: red) (j :: red') ?_ xs hx, lt_of_not_ge hnle⟩
+            intro k hk'
+            rcases List.mem_cons.1 hk' with rfl | hk''
+            · exact List.mem_cons_self
+            · exact List.mem_cons_of_mem _ (hsub k hk'')
+          · exact hk j hj' hjr
+
+/-- `remove_redundant_row_constraints` with the code's threshold (`eps` = `f64::EPSILON`, any `eps` here) and *any*
+    solver that is right about `infeasible`: no point is lost -/
+theorem C15_remove_redundant_superset {σ : Type} (eps : α) (lp : LPOracle σ α) (hinf : InfeasibleSound lp)
+    (p : Aff α) (s : σ) (r : Aff α) (h : (Poly.removeRedundant eps lp p s).1 = .ok r) (x : List α)
+    (hm : Poly.Mem p x) : Poly.Mem r x :=
+  removeRedundantLoop_superset eps lp hinf p _ [] s r h x hm
+
+/-- … the result is the canonical empty polytope or a subsequence of the original rows (any solver, any threshold) -/
+theorem C15_remove_redundant_subseq {σ : Type} (eps : α) (lp : LPOracle σ α) (p : Aff α) (s : σ) (r : Aff α)
+    (h : (Poly.removeRedundant eps lp p s).1 = .ok r) : r = Poly.empty p.indim ∨ r.rows.Sublist p.rows := by
+  suffices hs : ∀ idxs red (s : σ), (removeRedundantLoop eps lp p idxs red s).1 = .ok r →
+      r = Poly.empty p.indim ∨ ∃ red', r = p.removeRows red' by
+    rcases hs _ [] s h with he | ⟨red', rfl⟩
+    · exact Or.inl he
+    · exact Or.inr (C15_remove_rows_subseq p red')
+  intro idxs
+  induction idxs with
+  | nil =>
+    intro red s h
+    simp only [removeRedundantLoop, RedResult.ok.injEq] at h
+    exact Or.inr ⟨red, h.symm⟩
+  | cons i rest ih =>
+    intro red s h
+    simp only [removeRedundantLoop] at h
+    rcases hlp : lp s (p.removeRows (i :: red)) (vneg (p.mat.getD i [])) with ⟨a, s'⟩
+    rw [hlp] at h
+    cases a with
+    | error => simp at h
+    | infeasible => simp only [RedResult.ok.injEq] at h; exact Or.inl h.symm
+    | unbounded => exact ih red s' h
+    | optimal xs =>
+      simp only at h
+      split at h
+      · exact ih (i :: red) s' h
+      · exact ih red s' h
+
+/-- … and it leaves no row that is implied by the remaining ones by a margin: for a solver whose `optimal` points lie
+    in the set and whose `unbounded` answers are right, every row `i` that stays is violated by more than `eps` at some
+    point satisfying all the other remaining rows -/
+theorem C15_remove_redundant_irredundant {σ : Type} (eps : α) (lp : LPOracle σ α) (hwit : WitnessIn lp)
+    (hunb : UnboundedSound lp) (p : Aff α) (s : σ) (r : Aff α) (h : (Poly.removeRedundant eps lp p s).1 = .ok r) :
+    r = Poly.empty p.indim ∨ ∃ red', r = p.removeRows red' ∧ ∀ i, i < p.mat.length → i ∉ red' →
+      ∃ x, Poly.Mem (p.removeRows (i :: red')) x ∧ p.bias.getD i 0 + eps < dot (p.mat.getD i []) x := by
+  rcases removeRedundantLoop_kept eps lp hwit hunb p _ [] s r h with he | ⟨red', hr, _, _, hk⟩
+  · exact Or.inl he
+  · exact Or.inr ⟨red', hr, fun i hi hir => hk i (by simp [hi]) hir⟩
+
 theorem dedupAux_sublist (eqv : List α × α → List α × α → Bool) (seen rs : List (List α × α)) :
     (Poly.dedupAux eqv seen rs).Sublist rs := by
   induction rs generalizing seen with
